@@ -126,7 +126,8 @@ def reuse_rule(ctx, rule="R07.2"):
     ctx.check(ok, rule, site, "position change information comes from pre_pos(pos, mesh_type, info=True)", "info")
     # raw kriging field is stored only when it was recomputed
     st = [s for s in fn.body if isinstance(s, ast.If) and ast.unparse(s.test) == "not reuse"]
-    ok = len(st) == 1 and [norm_stmt(x) for x in st[0].body] == ["self.post_field(rawkrige, name[2], False, save[2])"]
+    stb = [norm_stmt(x) for x in st[0].body] if len(st) == 1 else []
+    ok = "self.post_field(rawkrige, name[2], False, save[2])" in stb and all(x == "self.post_field(rawkrige, name[2], False, save[2])" or x.startswith("self._krige_var_ref = ") for x in stb)
     ctx.check(ok, rule, site, "the raw kriging field is stored unprocessed under the name the reuse test looks for", "store-raw")
     # pre_pos -> set_pos(info=True) plumbing
     pre = prog.func(FB, "Field.pre_pos")
@@ -136,6 +137,48 @@ def reuse_rule(ctx, rule="R07.2"):
     body = [norm_stmt(s) for s in sp.body if not (isinstance(s, ast.Expr) and isinstance(s.value, ast.Constant))]
     ok = body[:2] == ["info_ret = super().set_pos(pos, mesh_type, info=True)", "if info_ret['deleted']: self.krige.delete_fields()"]
     ctx.check(ok, rule, CS + "::CondSRF.set_pos", "a position change clears the stored fields of the CondSRF and of its krige object", "condsrf-set-pos")
+
+
+def provenance_rule(ctx, rule="R07.8"):
+    """The cached raw kriging field lives in the CondSRF, the kriging variance in the Krige object.  Presence of the two NAMES is no
+    evidence that they stem from the same kriging call: Krige.__call__ is public and stores a new variance under the same name (after
+    set_condition deleted the old one), while the CondSRF still holds the raw field of the old conditions.  The reuse test must tie
+    the raw field to the very variance object it was computed with."""
+    prog = ctx.prog
+    fn = prog.func(CS, "CondSRF.__call__")
+    site = CS + "::CondSRF.__call__"
+    reuse_if = [s for s in fn.body if isinstance(s, ast.If) and any(norm_stmt(x) == "reuse = True" for x in s.body)]
+    if len(reuse_if) != 1:
+        raise AnalysisError("anchor vanished: reuse branch in CondSRF.__call__")
+    ri = reuse_if[0]
+    conj = ri.test.values if isinstance(ri.test, ast.BoolOp) and isinstance(ri.test.op, ast.And) else [ri.test]
+    ties = []
+    for c in conj:
+        if isinstance(c, ast.Compare) and len(c.ops) == 1 and isinstance(c.ops[0], ast.Is):
+            sides = [ast.unparse(c.left), ast.unparse(c.comparators[0])]
+            stored = [x for x in sides if x.startswith("self.krige[")]
+            priv = [x for x in sides if x.startswith("self._")]
+            if stored and priv:
+                ties.append((stored[0], priv[0]))
+    kc = prog.func("krige/base.py", "Krige.__call__")
+    public_producer = any(isinstance(n, ast.Call) and isinstance(n.func, ast.Attribute) and n.func.attr == "post_field" for n in ast.walk(kc))
+    if not public_producer:
+        raise AnalysisError("anchor vanished: Krige.__call__ stores its results through post_field")
+    if not ties:
+        ctx.violation(rule, site, "reuse is decided by the presence of the names only; Krige.__call__ (public) re-creates the variance name after set_condition() while this "
+                      "object keeps the raw kriging field of the old conditions: no test ties the cached raw field to the variance it was computed with", "no-provenance")
+        return
+    stored, priv = ties[0]
+    updates = [n for n in ast.walk(fn) if isinstance(n, ast.Assign) and ast.unparse(n.targets[0]) == priv]
+    ok = bool(updates) and all(ast.unparse(u.value) == "krige_var" for u in updates) and all(any(u is x for x in ast.walk(ri.orelse_node)) if hasattr(ri, "orelse_node") else True for u in updates)
+    in_else = all(any(u is x for st in ri.orelse for x in ast.walk(st)) for u in updates)
+    after = all(u._ord > ri._ord for u in updates)
+    ctx.check(ok and (in_else or after), rule, site, "the reuse test requires %s to be the very object (%s) remembered when the raw kriging field was computed; it is updated from `krige_var` on the recompute path"
+              % (stored, priv), "provenance")
+    guarded = [u for u in updates if not in_else and after]
+    for u in guarded:
+        par_ok = any(isinstance(s2, ast.If) and ast.unparse(s2.test) == "not reuse" and any(u is x for x in ast.walk(s2)) for s2 in fn.body)
+        ctx.check(par_ok, rule, site, "the remembered variance object is replaced only when the kriging results were recomputed", "provenance-guard")
 
 
 def detector_rule(ctx, rule="R07.3"):
@@ -211,6 +254,7 @@ def run(ctx):
     deletion_rule(ctx)
     writer_rule(ctx)
     reuse_rule(ctx)
+    provenance_rule(ctx)
     detector_rule(ctx)
     from .C11 import update_before_generate
 
